@@ -338,6 +338,9 @@ impl Property for C04Deep {
     fn shrink_budget(&self) -> usize {
         40
     }
+    fn hang_secs(&self) -> u64 {
+        900
+    }
     fn rule(&self) -> String {
         "tape -> (shape, depth log-uniform in 128..=max, sync/async, hints) -> constructed universe whose dependency PATH is `depth` packages long (chain into a missing package / an excluded candidate / an empty set of the first package, satisfiable chain, two-candidate ladder with a dead end, two chains meeting in a conflict; or a soft-requirement list of up to max_soft entries (half of the lists longer than max_soft/2), a third of them with Unknown dependencies: every entry opens a decision level); evaluated in a child process on a thread with a 2 MiB stack (std's default for spawned threads): solve, Conflict::graph, graphviz and the user-friendly message (written into a writer capped at 8 MiB) must finish without panic, abort or stack overflow and within the poll budget; in C02's copy of the stage the outcome must also be the one the construction fixes (chain shapes have exactly one or no solution). Non-trivial: depth >= 1000. Distinct = distinct (shape, depth, runtime, hints).".into()
     }
